@@ -238,6 +238,10 @@ pub fn err_words(e: &ParseError) -> String {
         ParseError::MultipleElementsAtTopLevel(_) => ("MultipleElementsAtTopLevel", vec![]),
         ParseError::TextAtTopLevel(_) => ("TextAtTopLevel", vec![]),
         ParseError::DuplicateId(v, _) => ("DuplicateId", vec![enc(v)]),
+        ParseError::InvalidNamespaceDeclaration(n, _) => {
+            ("InvalidNamespaceDeclaration", vec![enc(n)])
+        }
+        ParseError::InvalidTarget(t, _) => ("InvalidTarget", vec![enc(t)]),
         ParseError::XmlParser(_, _) => ("XmlParser", vec![]),
         #[allow(unreachable_patterns)]
         _ => ("Other", vec![]),
